@@ -168,6 +168,16 @@ def coq_check(c, r):
             return None
         V = "(@VO2 FNum)" if k.endswith("2") else "(@VO3 FNum)"
         return "check_poisson %s %s %s %s %s" % (V, coq([T(p) for p in c["pts"]]), coq([int(i) for i in c["indices"]]), coq(c["r"]), coq([int(i) for i in r["keep"]]))
+    if k == "c15.hull":
+        # engeom's own logic on top of parry's hull: the order vote over the hull indices and the farthest pair of hull vertices
+        if r.get("timeout") or r.get("panic") or "hull" not in r:
+            return None
+        a = "check_order %s %s" % (coq([int(i) for i in r["hull"]]), coq(r["dir"] == "ccw"))
+        fi = r.get("far_idx")
+        if fi is None or len(fi["poly"]) > 120:
+            return a
+        b = "check_farthest %s %s %s" % (coq([T(p) for p in fi["poly"]]), coq(int(fi["i"])), coq(int(fi["j"])))
+        return "(let a := %s in if Z.eqb a 0%%Z then %s else a)" % (a, b)
     return None
 
 
